@@ -1,6 +1,6 @@
 (* C08 - reported power is the textbook power of the configured test. About genR/Mean.rom_power_from_stats. *)
 From Coq Require Import Reals String List Lra.
-From TT Require Import lib.PreludeR lib.Stats lib.Distr genR.Aggr genR.Mean proofs.C14_pooling proofs.Mean_core
+From TT Require Import lib.RTac lib.PreludeR lib.Stats lib.Distr genR.Aggr genR.Mean proofs.C14_pooling proofs.Mean_core
   proofs.Mean_aggr proofs.C06_cuped.
 Import ListNotations.
 Local Open Scope R_scope.
@@ -28,7 +28,7 @@ Lemma power_textbook :
   end.
 Proof.
   unfold rom_power_from_stats. rewrite scale_and_distr_some. fold r. nR.
-  destruct (cfg_alternative cfg); reflexivity.
+  destruct (cfg_alternative cfg); first [reflexivity | (cbv beta iota zeta; cbn [alternative_eqb oget_dist]; unfold alt, null, a, df, se, ev, ut, nt, nc; rq)].
 Qed.
 End Power.
 
